@@ -623,6 +623,7 @@ func runC10() {
 		}
 	}
 	rep.Count(fmt.Sprintf("combinations_total=%d", total))
+	w.vaultHistories(rep, &items)
 	writeCases10(items)
 	rep.Write()
 }
@@ -885,3 +886,110 @@ func (w *World10) one(rep *lib.Report, r *lib.Rand, sh shape, caller int, kind s
 }
 
 var _ = distrtypes.ModuleName
+
+// vaultHistories: "shares move only under an allowance that took effect".
+// A contract that delegates (the vault, aKC) approves a would-be spender (U2) from inside a frame that the EVM
+// discards afterwards — the inner frame reverts and its caller swallows that; the inner frame ends in INVALID; the
+// whole transaction reverts — with no other native action in the discarded span. Then the would-be spender calls
+// transferFromShares on the vault's delegation. The approval must not have taken effect and the transfer must fail.
+func (w *World10) vaultHistories(rep *lib.Report, items *[]string) {
+	c := w.c
+	sabi := fxstakingtypes.GetABI()
+	S := lib.StakingPrecompile
+	amount := e18(5)
+	approve, err := sabi.Pack("approveShares", w.vals[0].String(), w.addrs[aU2], amount)
+	lib.Must(err)
+	pull, err := sabi.Pack("transferFromShares", w.vals[0].String(), w.addrs[aKC], w.addrs[aU2], amount)
+	lib.Must(err)
+	type variant struct {
+		name  string
+		inner func() []byte // code of the vault
+		outer bool          // called through an outer contract that ignores the vault's failure
+	}
+	vs := []variant{
+		{"inner frame REVERTs, caller ignores it", func() []byte {
+			return (&lib.Asm{}).Call(lib.CALL, S, 0, nil, approve).RequireSuccess().Revert().B
+		}, true},
+		{"inner frame ends in INVALID, caller ignores it", func() []byte {
+			return (&lib.Asm{}).Call(lib.CALL, S, 0, nil, approve).RequireSuccess().SStore(1, 1).Invalid().B
+		}, true},
+		{"the whole transaction reverts", func() []byte {
+			return (&lib.Asm{}).Call(lib.CALL, S, 0, nil, approve).RequireSuccess().Log0(7).Revert().B
+		}, false},
+		{"control: the frame is kept", func() []byte {
+			return (&lib.Asm{}).Call(lib.CALL, S, 0, nil, approve).RequireSuccess().Stop().B
+		}, true},
+	}
+	for _, v := range vs {
+		ctx, _ := w.base.CacheContext()
+		c.InstallCode(ctx, w.addrs[aKC], v.inner())
+		to := w.addrs[aKC]
+		if v.outer {
+			c.InstallCode(ctx, w.addrs[aSO], (&lib.Asm{}).Call(lib.CALL, w.addrs[aKC], 0, nil, nil).Ignore().Stop().B)
+			to = w.addrs[aSO]
+		}
+		control := strings.HasPrefix(v.name, "control")
+		pre := w.observe(ctx)
+		dumpPre := c.DumpAll(ctx)
+		res, tr, _ := evmCall(c, ctx, w.addrs[aU0], to, nil, 3_000_000, nil)
+		rp := case10{Shape: "vault: approveShares inside a frame — " + v.name, Switch: "none",
+			Call: Call10{Method: "approveShares then transferFromShares", Coq: "(CTransferFromShares 0 3 2 " + zb(amount) + ")", Value: big.NewInt(0), From: aKC, Shares: amount}}
+		fail := func(what, sig, detail string) {
+			rp.Detail = detail
+			rep.Fail(lib.Failure{Kind: "monitor", What: what, Sig: sig, Replay: rp})
+		}
+		// did the approve itself run and return success inside its frame?
+		approved := false
+		var find func(f *TFrame)
+		find = func(f *TFrame) {
+			if f == nil {
+				return
+			}
+			if isPrecompile(f.To) && f.Err == "" {
+				approved = true
+			}
+			for _, o := range f.Ops {
+				if o.Kind == "frame" {
+					find(o.Frame)
+				}
+			}
+		}
+		find(tr.Root)
+		if !approved {
+			rep.Fail(lib.Failure{Kind: "harness", What: "vault history: the approveShares call did not run", Sig: "C10:harness:vault", Replay: rp})
+			continue
+		}
+		mid := w.observe(ctx)
+		al := mid.Alw[[3]int{0, aKC, aU2}]
+		if control {
+			if res.Failed || al == nil || al.Cmp(amount) != 0 {
+				rep.Fail(lib.Failure{Kind: "harness", What: "vault history: the control approval did not take effect", Sig: "C10:harness:vault-control", Replay: rp})
+			}
+		} else {
+			if al != nil && al.Sign() != 0 {
+				fail("an approveShares made inside a frame the EVM discarded took effect: the allowance is granted", "C10:allowance-from-discarded-frame",
+					fmt.Sprintf("%s: allowance(val0, vault, spender) = %s after the transaction (failed=%v)", v.name, al, res.Failed))
+			}
+			if d := lib.DiffDumps(dumpPre, c.DumpAll(ctx)); len(d) > 0 {
+				fail("a transaction whose only precompile call sits in a discarded frame changed the store", "C10:discarded-frame-changed-store", strings.Join(d, "\n"))
+			}
+		}
+		// the would-be spender pulls the vault's shares
+		pre2 := mid
+		res2, _, _ := evmCall(c, ctx, w.addrs[aU2], S, nil, 3_000_000, pull)
+		ok2 := res2.Err == nil && !res2.Failed
+		post2 := w.observe(ctx)
+		if !control {
+			if ok2 || post2.Dlg[aKC][0].Cmp(pre.Dlg[aKC][0]) != 0 {
+				fail("shares of a delegator moved under an allowance that never took effect (it was approved inside a discarded frame)", "C10:transfer-without-effective-allowance",
+					fmt.Sprintf("%s: vault delegation %s -> %s, spender now holds %s", v.name, pre.Dlg[aKC][0], post2.Dlg[aKC][0], post2.Dlg[aU2][0]))
+			}
+		} else if !ok2 {
+			rep.Fail(lib.Failure{Kind: "harness", What: "vault history: the control transfer failed: " + res2.VmError, Sig: "C10:harness:vault-control", Replay: rp})
+		}
+		rep.Case("vault|"+v.name, true)
+		rep.Count("vault_history")
+		*items = append(*items, fmt.Sprintf("mk_c10_case CALL false %d 0 (CTransferFromShares 0 %d %d %s) %s %s %s", aU2, aKC, aU2, zb(amount),
+			intern(pre2.coq()), lib.Bool(ok2), intern(post2.coq())))
+	}
+}
